@@ -22,6 +22,7 @@ def evOf (s : String) : Option Ev :=
   | 'F' :: r => (natOfChars r 0).map (fun w => .lbl (.finish w))
   | 'L' :: r => (natOfChars r 0).map (fun w => .lbl (.look w))
   | 'T' :: r => (natOfChars r 0).map (fun w => .lbl (.wake w true))
+  | 'W' :: r => (natOfChars r 0).map (fun w => .lbl (.wake w false))
   | ['X'] => some (.lbl .dropPool)
   | 'D' :: r =>
     (match splitC ':' r with
@@ -130,6 +131,7 @@ def run (kv : KV) : String :=
     "newthread:" ++ b01 (strs.any (fun x => x.endsWith ":n")),
     "queued:" ++ b01 (strs.any (fun x => (x.splitOn ":q").length > 1)),
     "timeoutwake:" ++ b01 (strs.any (fun x => x.startsWith "T")),
+    "spuriouswake:" ++ b01 (strs.any (fun x => x.startsWith "W")),
     "presettle:" ++ get kv "presettle",
     "burstlive:" ++ (if liveBurst ≤ 4 then "le4" else "gt4"),
     "ptimer:" ++ get kv "ptimer", "trickle:" ++ b01 (decide (0 < trickle)) ]
